@@ -27,7 +27,7 @@ package drummer
 // build = broken correspondence, reported as such): scheduler{randomSrc, tick,
 // nodeHostList, shards, regions}, nodeHostSpec{Address, Region, Tick, Shards},
 // nodeHostSpec.PersistentLog, (*scheduler).launch, validateNodeHostRequest,
-// validateRegions, nodeHostTTL.
+// validateRegions, nodeHostTTL; exported: settings.Soft (read by reflection).
 //
 // Input line:  {"tick":T,"hosts":[{"a":addr,"r":region,"t":tick,"s":[shard ids],"p":[[shard,replica]..]}],
 //               "shards":[{"id":I,"app":name,"m":[member ids]}],
